@@ -261,6 +261,13 @@ impl<'r, 'a, RT: Runtime + 'r> Machine<'r, 'a, RT> {
 
     pub fn execute(mut self) -> Result<Output, ActorError> {
         while self.pc < self.bytecode.len() {
+            #[cfg(fil_verif)]
+            if verif::spend() {
+                return Err(ActorError::unchecked(
+                    verif::EXIT_STEP_BUDGET,
+                    format!("fil_verif: step budget exhausted (pc={})", self.pc),
+                ));
+            }
             // This is faster than the question mark operator, and speed counts here.
             #[allow(clippy::question_mark)]
             if let Err(e) = self.step() {
@@ -287,6 +294,60 @@ pub fn execute(
     system: &mut System<impl Runtime>,
 ) -> Result<Output, ActorError> {
     Machine::new(system, runtime, bytecode).execute()
+}
+
+/// Verification hook H1 (compiled only with `--cfg fil_verif`, never in production builds):
+/// an optional per-thread budget of interpreter steps. The native test VMs have no gas, so an
+/// EVM loop such as `JUMPDEST PUSH0 JUMP` would never end; a harness arms the budget before a
+/// message and `Machine::execute` stops with `EXIT_STEP_BUDGET` once it is used up. The budget
+/// is shared by all EVM frames running on the thread and stays exhausted until re-armed.
+/// Likewise an optional cap on the size of one EVM memory (gas bounds that too).
+#[cfg(fil_verif)]
+pub mod verif {
+    use std::cell::Cell;
+
+    /// Exit code reported when the step budget is exhausted (outside every range the actors use).
+    pub const EXIT_STEP_BUDGET: fvm_shared::error::ExitCode =
+        fvm_shared::error::ExitCode::new(0x00F1_7E57);
+
+    thread_local! {
+        static STEPS_LEFT: Cell<u64> = const { Cell::new(u64::MAX) };
+        static MEMORY_CAP: Cell<u64> = const { Cell::new(u64::MAX) };
+    }
+
+    /// Allow at most `steps` further interpreter steps on this thread; `u64::MAX` disarms.
+    pub fn arm(steps: u64) {
+        STEPS_LEFT.with(|c| c.set(steps));
+    }
+
+    /// Steps left on this thread (`u64::MAX` when disarmed).
+    pub fn remaining() -> u64 {
+        STEPS_LEFT.with(|c| c.get())
+    }
+
+    /// Refuse to grow an EVM memory beyond `bytes` on this thread; `u64::MAX` disarms.
+    pub fn cap_memory(bytes: u64) {
+        MEMORY_CAP.with(|c| c.set(bytes));
+    }
+
+    /// True if a memory of `new_size` bytes is over the armed cap.
+    #[inline]
+    pub(crate) fn over_memory_cap(new_size: u64) -> bool {
+        MEMORY_CAP.with(|c| new_size > c.get())
+    }
+
+    /// Account for one step; true if the budget is exhausted.
+    #[inline]
+    pub(super) fn spend() -> bool {
+        STEPS_LEFT.with(|c| match c.get() {
+            u64::MAX => false,
+            0 => true,
+            n => {
+                c.set(n - 1);
+                false
+            }
+        })
+    }
 }
 
 #[cfg(test)]
